@@ -60,6 +60,9 @@ func topology.Update
 
 func topology.Primary
   props C20
+  // ASSUMED (definition of the ghost): a lookup is stamped with the number of refreshes so far
+  modifies lookupEpoch
+  assumes lookupEpoch == refreshes
   ensures result_0 == t.primary
   ensures result_1 == nil ==> result_0 != nil && !result_0.dead
   ensures t.primary == nil ==> result_1 == ErrNoPrimary
@@ -153,7 +156,8 @@ func HTTPClient.doReq
   assumes lastReqEp == endpoint && lastReqFailed == !isnil(result_1) && getCount == old(getCount) + ite(method == "GET", int(1), int(0))
 
 func HTTPClient.clusterHealthCheck
-  modifies everything
+  modifies everything, refreshes
+  assumes refreshes == old(refreshes) + 1
   assumes c.topology != nil ==> TopoInv(c.topology)
 // discovery installs the ANNOUNCED LEADER as the primary and leaves the topology well-formed;
 // a node whose discovery request failed - whatever the failure - is marked dead before the next
@@ -161,7 +165,9 @@ func HTTPClient.clusterHealthCheck
 func HTTPClient.discover
   props C20
   requires ClientOK(c)
-  modifies everything, reqCount, lastReqWasPrimary, lastUpdatePrimary
+  modifies everything, reqCount, lastReqWasPrimary, lastUpdatePrimary, refreshes, discoverFailures
+  // ASSUMED (definition of the ghosts): a discovery is a refresh; a failed one is counted
+  assumes refreshes == old(refreshes) + 1 && (isnil(result) ==> discoverFailures == old(discoverFailures)) && (!isnil(result) ==> discoverFailures == old(discoverFailures) + 1)
   ensures c.topology != nil ==> TopoInv(c.topology)
   ensures C20/discovery-sends-no-write: reqCount == old(reqCount) && lastReqWasPrimary == old(lastReqWasPrimary)
   at topology.Update assert C20/discovery-installs-the-announced-leader: has(shards.Shards, shards.LeaderId) ==> primary == url2(box(shards.URIScheme), box(shards.Shards[shards.LeaderId].HTTPAddr))
@@ -176,11 +182,16 @@ func HTTPClient.discover
 func HTTPClient.callPrimary
   props C20
   requires ClientOK(c)
-  modifies everything, reqCount, lastReqWasPrimary
+  modifies everything, reqCount, lastReqWasPrimary, refreshes, lookupEpoch, discoverFailures
   ensures C20/at-most-one-request: reqCount == old(reqCount) || reqCount == old(reqCount) + 1
   ensures C20/writes-go-to-primary: reqCount == old(reqCount) + 1 ==> lastReqWasPrimary
-  loop 1 modifies everything, reqCount, lastReqWasPrimary
-  loop 1 invariant reqCount == old(reqCount) && ClientOK(c)
+  // whatever callPrimary does - send the write, or give up with the verdict of the lookup - it
+  // does on a lookup of the primary made AFTER its last health check or discovery (a verdict
+  // from before the refresh says nothing about the node the refresh may have revived or replaced);
+  // the one exception is a discovery that failed, whose error is what is returned
+  ensures C20/acts-on-the-topology-as-last-refreshed: lookupEpoch == refreshes || discoverFailures > old(discoverFailures)
+  loop 1 modifies everything, reqCount, lastReqWasPrimary, refreshes, lookupEpoch, discoverFailures
+  loop 1 invariant reqCount == old(reqCount) && ClientOK(c) && discoverFailures == old(discoverFailures)
   loop 1 decreases ite(healthRetried, int(0), int(1)) + ite(discoveryRetried, int(0), int(1))
 
 // C20: bounded retries
